@@ -11,7 +11,7 @@
    correspondence; everything else below is proved. *)
 From Coq Require Import List NArith Bool.
 From Mila Require Import Lib.Bytes Lib.Machine Model.LZCore Model.LZ10 Model.LZSpec Model.LZDecode
-  Proofs.LZCoreProofs Proofs.LZTokens Proofs.LZ10Proofs Proofs.LZDecodeProofs Proofs.LZRoundTrip.
+  Proofs.LZCoreProofs Proofs.LZTokens Proofs.LZ10Proofs Proofs.LZDecodeProofs Proofs.LZRoundTrip Proofs.LZFormat.
 Import ListNotations.
 Local Open Scope N_scope.
 
@@ -38,6 +38,12 @@ Proof. exact compress10_round_trip. Qed.
 (* the byte layout that is parsed: header, then the groups of the format description *)
 Theorem C08_layout : forall x, compress10 x = header10 (lenN x) ++ enc_body (senc V10) (tokens 18 x).
 Proof. exact compress10_enc. Qed.
+
+(* the same through the enum CompressionFormat::LZ10 (src/compression_format.rs:20-32): compress is the
+   variant's compress, and decompress (compress x) = x, compress in profile mc, decompress in profile md *)
+Theorem C08_format_entry : forall mc md x, wfb x -> lenN x < 2 ^ 24 ->
+  cf_compress CF10 mc x = Ok (compress10 x) /\ cf_decompress CF10 md (compress10 x) = Ok x.
+Proof. intros mc md x Hw Hn. split; [reflexivity | exact (compress10_round_trip x Hw Hn md)]. Qed.
 
 (* non-vacuity: a 20-byte input with an overlapping reference (a run) and a window reference *)
 Example C08_example :
